@@ -21,9 +21,9 @@ pub struct C02;
 const KEYS: [&str; 5] = ["a", "b", "c", "msg", "ts_1"];
 /// keys that look like array indexes: `[0]` applied to an object must not find them
 const DIGIT_KEYS: [&str; 3] = ["0", "1", "2"];
-const NUM_LEAVES: [&str; 18] = [
+const NUM_LEAVES: [&str; 23] = [
     "0", "1", "-7", "42", "9223372036854775807", "-9223372036854775808", "9223372036854775808", "18446744073709551615", "123456789012345678901234567890", "1.5", "-0.25", "1e2", "5.0", "1E-3",
-    "0.1", "1e400", "-0", "12345678.12345678",
+    "0.1", "1e400", "-0", "12345678.12345678", "1e19", "-1e19", "9223372036854775808.0", "2e3", "1.0",
 ];
 const STR_LEAVES: [&str; 32] = ["", "abc", "12", "-3", "1.5", "true", "2021-03-04 05:06:07", "2021-13-04 05:06:07", "1:02:03", "x:y", "é😀", "q\"uote", "back\\slash", "line\nbreak", "+42", "007", "-0", ".5", "5.", " 42", "42 ", "2.5\n", " true", "TRUE", "false", "1e3", "0x10", "1_000", "٤٢", "-.5e1", "+1.5", "00:00:01"];
 
@@ -100,7 +100,12 @@ fn render(j: &J, spaced: bool, out: &mut String) {
                     out.push(',');
                     out.push_str(sp);
                 }
-                out.push_str(&crate::data::json_string(k));
+                if spaced && k.chars().count() == 1 && k.is_ascii() {
+                    // the same key written with a \\u escape (any character of a JSON string may be)
+                    out.push_str(&format!("\"\\u{:04x}\"", k.chars().next().unwrap() as u32));
+                } else {
+                    out.push_str(&crate::data::json_string(k));
+                }
                 out.push(':');
                 out.push_str(sp);
                 render(v, spaced, out);
